@@ -158,30 +158,42 @@ Qed.
 
 Lemma sorted_values_fields kvs fs :
   mfields kvs = Some fs ->
-  all_some (map (fun '(k, v) => match k with VStr _ s => Some (s, v) | _ => None end) kvs) = Some fs.
+  all_some (map (fun '(k, v) => match key_sort_text k with Some s => Some (s, v) | None => None end) kvs) = Some fs.
 Proof.
   revert fs. induction kvs as [|[k v] r IH]; intros fs H; cbn [mfields] in H.
   - injection H as <-. reflexivity.
   - destruct (mkey k) as [s|] eqn:Ek; [|discriminate]. destruct (mfields r) as [l|]; [|discriminate].
     injection H as <-. cbn [map all_some]. rewrite (IH l eq_refl).
     destruct k as [| | | |nm s0| | | | | | | |]; try discriminate Ek.
+    cbn [key_sort_text].
     destruct nm; cbn in Ek.
     + destruct s0; [discriminate|]. injection Ek as <-. reflexivity.
     + injection Ek as <-. reflexivity.
 Qed.
 
+(** the two maps have the same key texts, so Select answers for both or
+    declines both (two keys that print alike: a string and a named string
+    with the same contents); when it answers, the values are related in
+    order *)
 Lemma sorted_values_rel kvs1 kvs2 fs1 fs2 :
   st = false -> mfields kvs1 = Some fs1 -> mfields kvs2 = Some fs2 -> Rflds fs1 fs2 ->
-  exists l1 l2, sorted_values kvs1 = Some l1 /\ sorted_values kvs2 = Some l2 /\ Forall2 R l1 l2.
+  match sorted_values kvs1, sorted_values kvs2 with
+  | Some l1, Some l2 => Forall2 R l1 l2
+  | None, None => True
+  | _, _ => False
+  end.
 Proof.
   intros Hst M1 M2 Hf. unfold sorted_values.
   rewrite (sorted_values_fields kvs1 fs1 M1), (sorted_values_fields kvs2 fs2 M2).
-  eexists. eexists. split; [reflexivity|]. split; [reflexivity|].
+  assert (Hk : map fst fs1 = map fst fs2).
+  { clear M1 M2. induction Hf as [|[k1 v1] [k2 v2] r1 r2 [Hk _] _ IH]; [reflexivity|].
+    cbn [fst] in Hk. unfold keq in Hk. rewrite Hst in Hk. subst k2. cbn [map fst]. rewrite IH. reflexivity. }
+  rewrite <- Hk. destruct (str_nodupb (map fst fs1)); [|exact I].
   assert (Hs : Forall2 kv_rel (fold_right insert_kv [] fs1) (fold_right insert_kv [] fs2)).
-  { clear M1 M2. induction Hf as [|[k1 v1] [k2 v2] r1 r2 [Hk [Hv _]] _ IH]; [constructor|].
+  { clear M1 M2 Hk. induction Hf as [|[k1 v1] [k2 v2] r1 r2 [Hk [Hv _]] _ IH]; [constructor|].
     cbn [fst snd] in Hk, Hv. unfold keq in Hk. rewrite Hst in Hk. subst k2.
     rewrite !(fcv_false st _ Hst) in Hv. cbn [fold_right]. apply insert_kv_rel; assumption. }
-  clear Hf. induction Hs as [|a b r1 r2 [_ Hab] _ IH]; [constructor|]. cbn [map]. constructor; assumption.
+  clear Hf Hk. induction Hs as [|a b r1 r2 [_ Hab] _ IH]; [constructor|]. cbn [map]. constructor; assumption.
 Qed.
 
 Definition select_body (ev : gv -> outcome gv) (val : gv) : outcome gv :=
@@ -193,7 +205,7 @@ Definition select_body (ev : gv -> outcome gv) (val : gv) : outcome gv :=
     match sorted_values kvs with
     | Some vs => do rs <- select_elems ev vs;
                  Ok (VSlice EAny (match rs with [] => true | _ => false end) rs)
-    | None => Declined "Select over a map whose keys are not strings"
+    | None => Declined "Select over a map whose keys have no modelled printed form, or print alike"
     end
   | _ => fail "unsupported type; expected array or map"
   end.
@@ -227,8 +239,8 @@ Proof.
   - destruct (objlike_map_only st pt x n fs1 Hst Hpt Pa H1) as [kt1 [vt1 [kvs1 [-> M1]]]].
     destruct (objlike_map_only st pt y n fs2 Hst Hpt Pb H2) as [kt2 [vt2 [kvs2 [-> M2]]]].
     cbn [tgt].
-    destruct (sorted_values_rel kvs1 kvs2 fs1 fs2 Hst M1 M2 Hf) as [l1 [l2 [S1 [S2 Hl]]]].
-    rewrite S1, S2.
+    pose proof (sorted_values_rel kvs1 kvs2 fs1 fs2 Hst M1 M2 Hf) as Hl.
+    destruct (sorted_values kvs1) as [l1|], (sorted_values kvs2) as [l2|]; try contradiction Hl; [|exact I].
     eapply orel_bind; [apply select_elems_rel; eassumption|].
     intros rs1 rs2 Hrs. apply select_result_rel. exact Hrs.
 Qed.
